@@ -3,3 +3,6 @@ impl BooleanNetwork { pub fn to_string(&self) -> String { unimplemented!() } }
 impl SymbolicContext { pub fn new(_bn: &BooleanNetwork) -> Result<SymbolicContext, String> { unimplemented!() } }
 // stand-in for std::fs::read_to_string (the repo calls it unqualified): reads the whole file as text
 pub fn read_to_string(_path: &str) -> Result<String, std::io::Error> { unimplemented!() }
+// the two library calls of get_extended_symbolic_graph (src/mc_utils.rs)
+impl BooleanNetwork { pub fn variables(&self) -> VariableIdIterator { unimplemented!() } }
+impl SymbolicContext { pub fn with_extra_state_variables(_bn: &BooleanNetwork, _m: &HashMap<VariableId, u16>) -> Result<SymbolicContext, String> { unimplemented!() } }
